@@ -75,16 +75,66 @@ func c11cmp(mode string) func(a, b int) int {
 	switch mode {
 	case "rev":
 		return func(a, b int) int { return cmp.Compare(b, a) }
-	case "half":
-		return func(a, b int) int { return cmp.Compare(a/2, b/2) }
+	case "half": // ⌊a/2⌋ as in the driver (`>> 1` floors; Go's `/` truncates towards zero, which differs for negative odd values)
+		return func(a, b int) int { return cmp.Compare(a>>1, b>>1) }
 	case "revhalf":
-		return func(a, b int) int { return cmp.Compare(b/2, a/2) }
+		return func(a, b int) int { return cmp.Compare(b>>1, a>>1) }
 	case "diff": // a legal three-way comparison whose results are not confined to {-1,0,1}
 		return func(a, b int) int { return a - b }
 	case "rdiff2":
 		return func(a, b int) int { return 2 * (b - a) }
 	}
 	return cmp.Compare[int]
+}
+
+// editObs runs LCS and EditScript on (lhs, rhs) and prints everything observable: the LCS, the script edit by
+// edit with op byte, X, Y and where X / Y start inside lhs / rhs (pointer identity).
+func (r *c11) editObs(lhs, rhs []int) string {
+	lcs := slice.LCS(lhs, rhs)
+	es := slice.EditScript(lhs, rhs)
+	var sb strings.Builder
+	fmt.Fprintf(&sb, "lcs=%s n=%d script=", fmtInts(lcs), len(es))
+	if len(es) == 0 {
+		sb.WriteByte('-')
+	}
+	nEmit, longest := 0, 0
+	for i, e := range es {
+		if i > 0 {
+			sb.WriteByte(' ')
+		}
+		fmt.Fprintf(&sb, "%c%s/%s@%s,%s", byte(e.Op), c11fmtCsv(e.X), c11fmtCsv(e.Y), c11off(lhs, e.X), c11off(rhs, e.Y))
+		switch e.Op {
+		case slice.OpReplace:
+			r.st.Note("edit-replace")
+		case slice.OpDrop:
+			r.st.Note("edit-drop")
+		case slice.OpCopy:
+			r.st.Note("edit-copy")
+		case slice.OpEmit:
+			nEmit++
+			longest = max(longest, len(e.X))
+			if len(e.X) > 1 {
+				r.st.Note("edit-emit-run>1")
+			}
+		}
+	}
+	switch {
+	case len(lhs) == 0 && len(rhs) == 0:
+		r.st.Note("edit-both-empty")
+	case len(es) == 0:
+		r.st.Note("edit-equal-inputs(single-emit-dropped)")
+	case len(lcs) == 0:
+		r.st.Note("edit-nothing-common")
+	case nEmit >= 3:
+		r.st.Note("edit-3+emits")
+	}
+	if len(rhs) < len(lhs) {
+		r.st.Note("lcs-swap")
+	}
+	lbNote(r.st, "edit-shorter-input", min(len(lhs), len(rhs)))
+	lbNote(r.st, "edit-longest-emit-run", longest)
+	lbNote(r.st, "edit-script-edits", len(es))
+	return sb.String()
 }
 
 func (r *c11) Exec(op []string) string {
@@ -110,50 +160,33 @@ func (r *c11) Exec(op []string) string {
 
 	case "edit":
 		lhs, rhs := slices.Clone(r.lhs), slices.Clone(r.rhs)
-		lcs := slice.LCS(lhs, rhs)
-		es := slice.EditScript(lhs, rhs)
-		var sb strings.Builder
-		fmt.Fprintf(&sb, "lcs=%s n=%d script=", fmtInts(lcs), len(es))
-		if len(es) == 0 {
-			sb.WriteByte('-')
-		}
-		nEmit := 0
-		for i, e := range es {
-			if i > 0 {
-				sb.WriteByte(' ')
-			}
-			fmt.Fprintf(&sb, "%c%s/%s@%s,%s", byte(e.Op), c11fmtCsv(e.X), c11fmtCsv(e.Y), c11off(lhs, e.X), c11off(rhs, e.Y))
-			switch e.Op {
-			case slice.OpReplace:
-				r.st.Note("edit-replace")
-			case slice.OpDrop:
-				r.st.Note("edit-drop")
-			case slice.OpCopy:
-				r.st.Note("edit-copy")
-			case slice.OpEmit:
-				nEmit++
-				if len(e.X) > 1 {
-					r.st.Note("edit-emit-run>1")
-				}
-			}
-		}
-		switch {
-		case len(lhs) == 0 && len(rhs) == 0:
-			r.st.Note("edit-both-empty")
-		case len(es) == 0:
-			r.st.Note("edit-equal-inputs(single-emit-dropped)")
-		case len(lcs) == 0:
-			r.st.Note("edit-nothing-common")
-		case nEmit >= 3:
-			r.st.Note("edit-3+emits")
-		}
-		if len(rhs) < len(lhs) {
-			r.st.Note("lcs-swap")
-		}
+		out := r.editObs(lhs, rhs)
 		if !slices.Equal(lhs, r.lhs) || !slices.Equal(rhs, r.rhs) {
-			sb.WriteString(" INPUT-MODIFIED")
+			out += " INPUT-MODIFIED"
 		}
-		return sb.String()
+		return out
+
+	case "editview":
+		// both arguments are views of ONE backing array: EditScript(base[i:a], base[j:b]) on a copy of lhs
+		// (same start and different lengths, different starts, identical views, overlapping views)
+		base := slices.Clone(r.lhs)
+		a, b := min(atoi(op[2]), len(base)), min(atoi(op[4]), len(base))
+		i, j := min(atoi(op[1]), a), min(atoi(op[3]), b)
+		switch {
+		case i == j && a == b:
+			r.st.Note("editview-identical-views")
+		case i == j:
+			r.st.Note("editview-same-start-different-length")
+		case a == b:
+			r.st.Note("editview-different-start-same-end")
+		default:
+			r.st.Note("editview-different-start-and-end")
+		}
+		out := r.editObs(base[i:a], base[j:b])
+		if !slices.Equal(base, r.lhs) {
+			out += " INPUT-MODIFIED"
+		}
+		return out
 
 	case "lcsview":
 		// both arguments are views of ONE backing array with the same start: lhs[:a] and lhs[:b]
@@ -188,6 +221,8 @@ func (r *c11) Exec(op []string) string {
 			r.st.Note("lcs-swap")
 		}
 		mod := !slices.Equal(lhs, r.lhs) || !slices.Equal(rhs, r.rhs)
+		lbNote(r.st, "lcs-shorter-input", min(len(lhs), len(rhs)))
+		lbNote(r.st, "lcs-result", len(res))
 		return fmt.Sprintf("res=%s nil=%s mod=%s", fmtInts(res), fmtBool(res == nil), fmtBool(mod))
 
 	case "lis", "lnds":
@@ -217,6 +252,8 @@ func (r *c11) Exec(op []string) string {
 		default:
 			r.st.Note(op[0] + "-proper(binary-search)")
 		}
+		lbNote(r.st, op[0]+"-input", len(vs))
+		lbNote(r.st, op[0]+"-result", len(res))
 		return fmt.Sprintf("res=%s mod=%s", fmtInts(res), fmtBool(!slices.Equal(vs, r.lhs)))
 	}
 	return "bad-op"
@@ -373,8 +410,18 @@ func genC11Pairs(calls ...string) func(g *G) {
 				n := g.Intn(len(a))
 				ops = append(ops, fmt.Sprintf("lcsview %d %d", len(a), n), fmt.Sprintf("lcsview %d %d", n, len(a)), fmt.Sprintf("lcsview %d %d", len(a), len(a)))
 			}
+			if calls[0] == "edit" && len(a) > 1 {
+				// both arguments as views of one backing array (same start, different lengths, both orders; identical)
+				n := g.Intn(len(a))
+				ops = append(ops, fmt.Sprintf("editview 0 %d 0 %d", len(a), n), fmt.Sprintf("editview 0 %d 0 %d", n, len(a)), fmt.Sprintf("editview 0 %d 0 %d", len(a), len(a)),
+					fmt.Sprintf("editview %d %d 0 %d", n/2, len(a), n))
+			}
 			g.Case(ops)
 		}
+		if calls[0] == "edit" {
+			genC11Views(g)
+		}
+		genC11Large(g, calls)
 	}
 }
 
@@ -438,6 +485,7 @@ func genC12Lis(g *G) {
 		}
 		g.Case(append(ops, all...))
 	}
+	genC12LisLarge(g, all, []int{1000, 1025})
 }
 
 func init() {
